@@ -12,6 +12,18 @@ CHECKS = {
          "deterministic simulation: seeded operation histories on the real mem and file stores (file store on a simulated disk) checked op-by-op against an executable ordered-mailbox reference model",
          "Seeded search over store operation histories; every observation of both real back-ends is compared with a small reference model after each operation, and the two back-ends against each other. Evidence, not proof: histories are sampled.",
          "Trusted: the reference model (sim/models/mailstore.go), the simulated disk (sim/simfs, differential-tested against the real os package), the instrumenter (neutrality self-test: Inbucket's own suite passes on the instrumented copy). Sequential histories only; concurrency is C09."),
+ "C08": ("exploration", "DESIGN.md §4 C08",
+         "deterministic simulation: seeded delivery/remove/purge histories on the real stores with cap x size limit, size-enforcer goroutine scheduled by the simulator, survivors compared with an eviction reference model after every operation",
+         "Seeded search over histories and limit configurations; after every operation each mailbox must equal the eviction model (cap first, then globally oldest until the limit is met), fresh messages that fit must be retrievable, and a drift probe fills the whole capacity at the end.",
+         "Trusted: eviction reference model; one client only (concurrency is C09)."),
+ "C10": ("exploration", "DESIGN.md §4 C10",
+         "deterministic simulation: file store on a simulated disk with 'reopen' (new Store on the same tree after >=1 simulated second) and retention scans as generated operations; reference model unchanged across reopen",
+         "Seeded search over operation histories with 0..n clean restarts at arbitrary points; every observation before and after each restart must match the reference model.",
+         "Trusted: reference model, simulated disk. Restart = same directory tree, new Store object, clock advanced by at least 1 s; the process-wide id counter is not reset."),
+ "C11": ("fault_enumeration", "DESIGN.md §4 C11",
+         "deterministic simulation with crash injection: a crash image of the simulated disk is taken before EVERY file-system mutation step (and at partial lengths of every write call) of every mutating operation; each image is reopened and checked against the before/after reference models",
+         "Crash points are enumerated exhaustively within each sampled history (every mkdir/create/write/rename/remove/rmdir step, partial writes included); histories are seeded samples. Each image must list and visit without error, keep untouched mailboxes intact with full content, show the interrupted operation as all-or-nothing, and accept a new delivery.",
+         "Crash model = process death: completed system calls persist, nothing is reordered or lost (Inbucket never fsyncs, so power loss is out of scope). Trusted: simulated disk semantics (differential-tested against the os package)."),
 }
 
 NOT_YET = "check under construction in this session; not claimed until it runs clean on the unchanged tree"
